@@ -216,6 +216,9 @@ class C02Truth(Monitor):
                 self._check_ind(d, bc, f"{type(d).__name__} best_current_individual")
 
     def on_tree_ready(self, tree):
+        for lv_ in self.ctx.desc.get("levels", []):
+            if lv_.get("engine") in ("sea_cx", "ga") and lv_.get("p_mutation") == 0.0:
+                self.cov("crossover_without_mutation_levels")
         self._scan(tree)
 
     def on_step_end(self, tree):
